@@ -7,6 +7,7 @@ import (
 	"github.com/orda-io/orda/client/pkg/iface"
 	"github.com/orda-io/orda/client/pkg/model"
 	"github.com/orda-io/orda/client/pkg/orda"
+	"github.com/orda-io/orda/client/pkg/types"
 	"github.com/orda-io/orda/server/admin"
 	"github.com/orda-io/orda/server/constants"
 	"github.com/orda-io/orda/server/schema"
@@ -58,6 +59,12 @@ func (its *OrdaService) PatchDocument(goCtx gocontext.Context, req *model.PatchM
 	if lastSseq > 0 {
 		data.SetState(model.StateOfDatatype_SUBSCRIBED)
 		data.SetCheckPoint(lastSseq, 0)
+	}
+	// Every patch is issued by a replica of its own. The identity that came with the stored snapshot belongs to
+	// the replica that wrote it (an earlier patch); this one numbers its operations from 1 again, and two
+	// replicas must not number their operations under the same client ID.
+	if o, ok := data.(interface{ GetOpID() *model.OperationID }); ok {
+		o.GetOpID().CUID = types.NewUID()
 	}
 	doc := data.(orda.Document)
 	patches, err := doc.(orda.Document).PatchByJSON(req.Json)
